@@ -373,11 +373,11 @@ class JSON:
 
         # EOR messages have .nlris directly but no .announces/.withdraws
         if getattr(update_msg, 'IS_EOR', False):
-            # EOR message - use .nlris directly with original behavior
-            for nlri in update_msg.nlris:
-                nexthop_ip = getattr(nlri, 'nexthop', IP.NoNextHop)
-                nexthop_str = str(nexthop_ip) if nexthop_ip is not IP.NoNextHop else 'null'
-                plus.setdefault(nlri.family().afi_safi(), {}).setdefault(nexthop_str, []).append((nlri, nexthop_ip))
+            # An End-of-RIB marker announces no route.  Its json() is a '"eor": { ... }' member, not a
+            # value: listed with the announced NLRI it became '"null": [ "eor": { ... } ]', which no
+            # JSON parser accepts.  It is reported on its own, as API v4 always did.
+            if update_msg.nlris:
+                return {'message': self._json(f'{{ {self._nlri_to_json(update_msg.nlris[0])} }}')}
         else:
             # UpdateCollection - get nexthop from RoutedNLRI container
             for routed in update_msg.announces:
